@@ -11,10 +11,12 @@
        source error for a failing read) (C06_failures_propagate);
      - at the final state the feeder is done and every worker and the hashing thread have exited
        (C06_final_no_thread_left).
-   PARTIAL: deadlock freedom (every reachable non-final state has an enabled step) is established for
-   the named finite instances by complete exploration inside Coq (C06_*_w1) and observed on the
-   implementation by the PAR stream (threads alive after return, 20 s timeout, panic capture, every
-   recorded event log must be a run of the extracted LTS), not yet proved for all W. *)
+     - no deadlock: every reachable state that is not final has an enabled step (C06_deadlock_free), so,
+       with the potential, every run can be and - whatever the scheduler does - is completed, in
+       the final state, with the single-threaded result (C06_reachable_completes).
+   These are theorems about the protocol LTS.  That par.rs follows the LTS, real thread exit and
+   wall-clock termination are observed on the implementation by the PAR stream (threads alive after
+   return, 20 s timeout, panic capture; every recorded event log must be a run of the extracted LTS). *)
 From FV Require Import Model.Base Model.Par Proofs.ParSmall Proofs.ParP.
 
 Theorem C06_every_schedule_is_short : forall (p : plan) (ls : list label) (s : pstate),
@@ -37,6 +39,17 @@ Theorem C06_final_no_thread_left : forall (p : plan) (ls : list label) (s : psta
   (exists failed, s_f s = FDone failed) /\ forallb is_exit (s_w s) = true /\ s_h s = HExit.
 Proof. exact final_no_thread_left. Qed.
 Print Assumptions C06_final_no_thread_left.
+
+Theorem C06_deadlock_free : forall (p : plan) (ls : list label) (s : pstate),
+  1 <= p_workers p -> run p (init p) ls = Some s -> final s = false -> exists l s', step p s l = Some s'.
+Proof. exact deadlock_free. Qed.
+Print Assumptions C06_deadlock_free.
+
+Theorem C06_reachable_completes : forall (p : plan) (ls : list label) (s : pstate),
+  1 <= p_workers p -> run p (init p) ls = Some s ->
+  exists ls' s', run p (init p) (ls ++ ls') = Some s' /\ final s' = true /\ result_of s' = seq_result p.
+Proof. exact reachable_completes. Qed.
+Print Assumptions C06_reachable_completes.
 
 (* finite instances: all schedules terminate in the sequential outcome and none deadlocks *)
 Theorem C06_read_failure_w1 : all_schedules_ok (mkPlan 1 2 (Some 1) (fun _ => false)) 40 = true.
